@@ -688,20 +688,20 @@ def run(ctx):
     for fl in fls:
         ctx.unit = fl
         v, ws = build_view(ctx, fl)
-        rule1_forward(ctx, fl, v, ws)
-        rule2_static_init(ctx, fl, v)
-        rule6_results(ctx, fl, v, ws)
-        rule7_destructor_protocol(ctx, fl)
-        rule9_attr(ctx, fl)
-        rule10_yield(ctx, fl)
-        rule11_sleep(ctx, fl)
-        rule12_shared(ctx, fl)
-        rule15_self_equal(ctx, fl)
+        ctx.attempt(rule1_forward, ctx, fl, v, ws)
+        ctx.attempt(rule2_static_init, ctx, fl, v)
+        ctx.attempt(rule6_results, ctx, fl, v, ws)
+        ctx.attempt(rule7_destructor_protocol, ctx, fl)
+        ctx.attempt(rule9_attr, ctx, fl)
+        ctx.attempt(rule10_yield, ctx, fl)
+        ctx.attempt(rule11_sleep, ctx, fl)
+        ctx.attempt(rule12_shared, ctx, fl)
+        ctx.attempt(rule15_self_equal, ctx, fl)
     ctx.unit = 'real'
-    rule8_real(ctx)
+    ctx.attempt(rule8_real, ctx)
     ctx.unit = 'link'
-    rule4_wraplist(ctx)
-    rule5_abi(ctx)
+    ctx.attempt(rule4_wraplist, ctx)
+    ctx.attempt(rule5_abi, ctx)
 
 
 WRAP = 'src/myth_wrap_pthread.c'
